@@ -23,6 +23,7 @@ import Proofs.OpGuardLift
 import Proofs.OpGuardSetBlock
 import Proofs.OpGuardSbtWalk
 import Proofs.OpGuardB
+import PM.OpGuardNode
 import Props.C01
 import Props.C12
 import Props.C11
@@ -3115,5 +3116,381 @@ theorem structHistory_undo_bmp' (S : Schema) (htr : compatTransB S = true) (hts 
   opHistory_undo S htr hts doc ops tr' hd hn h
     (structOps_residual' S htr hts ops (Tr.init doc) rfl rfl ⟨hd, hn⟩ hb hall hres)
 
+
+/-! ### node-level operations and `Transform.replace` as whole operations (work package `wk-sbt`) -/
+
+mutual
+theorem attrsOk_eq_exact (S : Schema) : ∀ n : Node, attrsOk S n = attrsExact S n
+  | .text .. => rfl
+  | .leaf .. => rfl
+  | .elem t a m kids => by
+    simp only [attrsOk, attrsExact, attrsOkKids_eq_exact S kids]
+    cases computeAttrs (S.nodeType t).attrs a <;> rfl
+theorem attrsOkKids_eq_exact (S : Schema) : ∀ l : List Node, attrsOkKids S l = attrsExactKids S l
+  | [] => rfl
+  | n :: ns => by simp only [attrsOkKids, attrsExactKids, attrsOk_eq_exact S n, attrsOkKids_eq_exact S ns]
+end
+
+theorem uniqueMarkTypes_spec (ms : Marks) (h : uniqueMarkTypes ms = true) :
+    ∀ x ∈ ms, ∀ y ∈ ms, x.ty = y.ty → x = y := by
+  intro x hx y hy hty
+  simp only [uniqueMarkTypes, List.all_eq_true, Bool.or_eq_true, bne_iff_ne, ne_eq, beq_iff_eq] at h
+  rcases h x hx y hy with h | h
+  · exact absurd hty h
+  · exact h
+
+/-- **the executable guard of PM/OpGuardNode.lean implies `FamilyGuard`** (node-level steps; the driver request
+    `nodeStepGuard` evaluates it on recorded steps of real histories) -/
+theorem nodeStepGuardB_family (S : Schema) (s : Step) (d d' : Node) (h : nodeStepGuardB S s d = true) :
+    FamilyGuard S s d d' := by
+  cases s with
+  | attr pos name value =>
+    simp only [nodeStepGuardB, nodeStepGuardParts, Bool.and_true] at h
+    show attrsOk S d = true
+    rw [attrsOk_eq_exact]; exact h
+  | docAttr name value =>
+    simp only [nodeStepGuardB, nodeStepGuardParts, Bool.and_true] at h
+    show attrsOk S d = true
+    rw [attrsOk_eq_exact]; exact h
+  | addNodeMark pos m =>
+    simp only [nodeStepGuardB, nodeStepGuardParts] at h
+    cases hn : d.nodeAt pos with
+    | error e =>
+      rw [hn] at h
+      simp only [Bool.and_true] at h
+      exact ⟨by rw [attrsOk_eq_exact]; exact h, fun n hn' => by simp [hn] at hn', fun n hn' => by simp [hn] at hn',
+        fun n hn' => by simp [hn] at hn'⟩
+    | ok o =>
+      cases o with
+      | none =>
+        rw [hn] at h
+        simp only [Bool.and_true] at h
+        exact ⟨by rw [attrsOk_eq_exact]; exact h, fun n hn' => by simp [hn] at hn',
+          fun n hn' => by simp [hn] at hn', fun n hn' => by simp [hn] at hn'⟩
+      | some n =>
+        rw [hn] at h
+        simp only [Bool.and_eq_true, decide_eq_true_eq, List.all_eq_true, Bool.or_eq_true,
+          Bool.not_eq_true'] at h
+        obtain ⟨⟨⟨h1, h2⟩, h3⟩, h4⟩ := h
+        refine ⟨by rw [attrsOk_eq_exact]; exact h1, ?_, ?_, ?_⟩
+        · intro n' hn'
+          rw [hn] at hn'
+          simp only [Except.ok.injEq, Option.some.injEq] at hn'
+          subst hn'; exact h2
+        · intro n' hn'
+          rw [hn] at hn'
+          simp only [Except.ok.injEq, Option.some.injEq] at hn'
+          subst hn'; exact uniqueMarkTypes_spec _ h3
+        · intro n' hn' x hx hex
+          rw [hn] at hn'
+          simp only [Except.ok.injEq, Option.some.injEq] at hn'
+          subst hn'
+          rcases h4 x hx with h | h
+          · rw [hex] at h; cases h
+          · exact h
+  | removeNodeMark pos m =>
+    simp only [nodeStepGuardB, nodeStepGuardParts] at h
+    cases hn : d.nodeAt pos with
+    | error e =>
+      rw [hn] at h
+      simp only [Bool.and_true] at h
+      exact ⟨by rw [attrsOk_eq_exact]; exact h, fun n hn' => by simp [hn] at hn'⟩
+    | ok o =>
+      cases o with
+      | none =>
+        rw [hn] at h
+        simp only [Bool.and_true] at h
+        exact ⟨by rw [attrsOk_eq_exact]; exact h, fun n hn' => by simp [hn] at hn'⟩
+      | some n =>
+        rw [hn] at h
+        simp only [Bool.and_eq_true, Bool.and_true] at h
+        refine ⟨by rw [attrsOk_eq_exact]; exact h.1, ?_⟩
+        intro n' hn'
+        rw [hn] at hn'
+        simp only [Except.ok.injEq, Option.some.injEq] at hn'
+        subst hn'; exact uniqueMarkTypes_spec _ h.2
+  | replace => simp [nodeStepGuardB, nodeStepGuardParts] at h
+  | replaceAround => simp [nodeStepGuardB, nodeStepGuardParts] at h
+  | addMark => simp [nodeStepGuardB, nodeStepGuardParts] at h
+  | removeMark => simp [nodeStepGuardB, nodeStepGuardParts] at h
+
+/-- the node-level operations: `add_node_mark`, `remove_node_mark`, `set_node_attribute` -/
+def nodeLevelOp : Op → Bool
+  | .addNodeMark .. => true
+  | .removeNodeMark .. => true
+  | .setNodeAttribute .. => true
+  | _ => false
+
+/-- **what is asked of a node-level operation**, on the current document `d` and the operation's arguments —
+    exactly the guards of `attr_undo` / `nodeMark_undo`:
+    * `set_node_attribute`: every node of `d` carries its attributes as `compute_attrs` builds them (`attrsOk`);
+    * `add_node_mark(pos, m)`: `attrsOk`; on the node at `pos`: `m.add_to_set` does not shrink the mark set, no two
+      different marks of one type, and every mark `m` excludes excludes `m` too (finding C04-node-mark-inverse);
+    * `remove_node_mark(pos, mark or mark type)`: `attrsOk`; no two different marks of one type on the node. -/
+def NodeOpGuard (S : Schema) (op : Op) (d : Node) : Prop :=
+  match op with
+  | .setNodeAttribute _ _ _ => attrsOk S d = true
+  | .addNodeMark pos m =>
+    attrsOk S d = true ∧
+    (∀ n, d.nodeAt pos = .ok (some n) → n.marks.length ≤ (m.addToSet S n.marks).length) ∧
+    (∀ n, d.nodeAt pos = .ok (some n) → ∀ x ∈ n.marks, ∀ y ∈ n.marks, x.ty = y.ty → x = y) ∧
+    (∀ n, d.nodeAt pos = .ok (some n) → ∀ x ∈ n.marks, S.excludes m.ty x.ty = true → S.excludes x.ty m.ty = true)
+  | .removeNodeMark pos _ =>
+    attrsOk S d = true ∧
+    (∀ n, d.nodeAt pos = .ok (some n) → ∀ x ∈ n.marks, ∀ y ∈ n.marks, x.ty = y.ty → x = y)
+  | _ => True
+
+/-- what a node-level operation records: nothing (`remove_node_mark` with a mark type the node does not carry), or
+    the one node-level step at the operation's position, which meets `FamilyGuard` under `NodeOpGuard` -/
+theorem nodeOp_hist (S : Schema) (op : Op) (tr tr1 : Tr) (hop : nodeLevelOp op = true)
+    (hlen : tr.steps.length = tr.docs.length) (h : tr.runOp S op = some tr1) :
+    (appended tr tr1 = [] ∧ tr1.doc = tr.doc) ∨
+    ∃ pos s, ((∃ m, s = Step.addNodeMark pos m) ∨ (∃ m, s = Step.removeNodeMark pos m) ∨
+        (∃ n v, s = Step.attr pos n v)) ∧
+      appended tr tr1 = [(s, tr.doc)] ∧ S.apply s tr.doc = .ok tr1.doc ∧
+      (NodeOpGuard S op tr.doc → FamilyGuard S s tr.doc tr1.doc) := by
+  cases op with
+  | setNodeAttribute pos name value =>
+    obtain ⟨e, ha⟩ := Tr.step_hist hlen (toOption_some h : tr.step S (.attr pos name value) = .ok tr1)
+    exact .inr ⟨pos, _, .inr (.inr ⟨name, value, rfl⟩), appended_eq e, ha, fun hg => hg⟩
+  | addNodeMark pos m =>
+    obtain ⟨e, ha⟩ := Tr.step_hist hlen (toOption_some h : tr.step S (.addNodeMark pos m) = .ok tr1)
+    exact .inr ⟨pos, _, .inl ⟨m, rfl⟩, appended_eq e, ha, fun hg => hg⟩
+  | removeNodeMark pos sel =>
+    have h' : tr.removeNodeMark S pos sel = .ok tr1 := toOption_some h
+    simp only [Tr.removeNodeMark] at h'
+    split at h'
+    · obtain ⟨e, ha⟩ := Tr.step_hist hlen h'
+      exact .inr ⟨pos, _, .inr (.inl ⟨_, rfl⟩), appended_eq e, ha, fun hg => hg⟩
+    · split at h'
+      · simp at h'
+      · simp at h'
+      · split at h'
+        · simp only [Except.ok.injEq] at h'
+          subst h'
+          exact .inl ⟨by simp [appended], rfl⟩
+        · obtain ⟨e, ha⟩ := Tr.step_hist hlen h'
+          exact .inr ⟨pos, _, .inr (.inl ⟨_, rfl⟩), appended_eq e, ha, fun hg => hg⟩
+  | step => simp [nodeLevelOp] at hop
+  | replace => simp [nodeLevelOp] at hop
+  | mark => simp [nodeLevelOp] at hop
+  | split => simp [nodeLevelOp] at hop
+  | join => simp [nodeLevelOp] at hop
+  | lift => simp [nodeLevelOp] at hop
+  | wrap => simp [nodeLevelOp] at hop
+  | setNodeMarkup => simp [nodeLevelOp] at hop
+  | setBlockType => simp [nodeLevelOp] at hop
+
+/-- **node-level operations need only operation-level hypotheses**: `OpResidual` — `FamilyGuard` of the steps
+    the operation recorded — follows from `NodeOpGuard` on the current document and the operation's arguments
+    (the one recorded step is the `AttrStep` / `AddNodeMarkStep` / `RemoveNodeMarkStep` at the same position;
+    `remove_node_mark` with a mark type records the step for the first mark of that type, or nothing) -/
+theorem nodeOps_residual (S : Schema) (op : Op) (tr tr1 : Tr) (hop : nodeLevelOp op = true)
+    (hlen : tr.steps.length = tr.docs.length) (h : tr.runOp S op = some tr1)
+    (hg : NodeOpGuard S op tr.doc) : OpResidual S op tr tr1 := by
+  have key : HistAll (FamilyGuard S) (appended tr tr1) tr1.doc := by
+    rcases nodeOp_hist S op tr tr1 hop hlen h with ⟨e, _⟩ | ⟨pos, s, _, e, _, g⟩
+    · rw [e]; trivial
+    · rw [e]; exact ⟨g hg, trivial⟩
+  cases op with
+  | setNodeAttribute pos name value => exact key
+  | addNodeMark pos m => exact key
+  | removeNodeMark pos sel => exact key
+  | step => simp [nodeLevelOp] at hop
+  | replace => simp [nodeLevelOp] at hop
+  | mark => simp [nodeLevelOp] at hop
+  | split => simp [nodeLevelOp] at hop
+  | join => simp [nodeLevelOp] at hop
+  | lift => simp [nodeLevelOp] at hop
+  | wrap => simp [nodeLevelOp] at hop
+  | setNodeMarkup => simp [nodeLevelOp] at hop
+  | setBlockType => simp [nodeLevelOp] at hop
+
+/-- a node-level step keeps "no text outside the Basic Multilingual Plane" -/
+theorem nodeStep_bmp (S : Schema) (d d' : Node) (pos : Nat) (st : Step)
+    (hst : (∃ m, st = .addNodeMark pos m) ∨ (∃ m, st = .removeNodeMark pos m) ∨ (∃ n v, st = .attr pos n v))
+    (h : S.apply st d = .ok d') (hb : bmpDoc d = true) : bmpDoc d' = true := by
+  obtain ⟨h1, h2, h3, h4, _⟩ := apply_nodeStep_toks S d d' pos st hst h
+  unfold bmpDoc at hb ⊢
+  rw [List.all_eq_true] at hb ⊢
+  intro x hx
+  rw [← List.take_append_drop pos (ftoks d'.kids)] at hx
+  rcases List.mem_append.mp hx with hx | hx
+  · rw [h2] at hx; exact hb x (List.mem_of_mem_take hx)
+  · cases hd : (ftoks d'.kids).drop pos with
+    | nil => rw [hd] at hx; simp at hx
+    | cons y ys =>
+      rw [hd] at hx
+      have hy : (ftoks d'.kids).getD pos Tok.cl = y := by
+        rw [List.getD_eq_getElem?_getD, ← List.head?_drop, hd]; rfl
+      have hys : ys = (ftoks d.kids).drop (pos + 1) := by
+        rw [← h3, ← List.tail_drop, hd]; rfl
+      rcases List.mem_cons.mp hx with rfl | hx
+      · rw [← hy, noHigh_shape _ _ h4]
+        have hlt : pos < (ftoks d.kids).length := by rw [ftoks_length]; exact h1
+        rw [List.getD_eq_getElem?_getD, List.getElem?_eq_getElem hlt]
+        exact hb _ (List.getElem_mem hlt)
+      · rw [hys] at hx
+        exact hb x (List.mem_of_mem_drop hx)
+
+/-! #### `Transform.replace` with a non-empty slice -/
+
+/-- what is still asked of the step `Transform.replace(from, to, slice)` records: the normal form of the emitted
+    slice and the validity of its payload (for a `ReplaceAroundStep`: of the slice with the gap inserted — C11,
+    another work package is on it), and for a `ReplaceAroundStep` the fit guard `gapFitsBack` (the Fitter emits
+    replace-around steps whose gap is not clean but fits back: measured by the tie) -/
+def ReplaceResidual (S : Schema) (tr tr1 : Tr) : Prop :=
+  HistAll (fun s d _ =>
+    match s with
+    | .replace _ _ sl _ => fnorm sl.content = true ∧ C01.PayloadValid S d s
+    | .replaceAround f t gf gt sl _ _ =>
+      fnorm sl.content = true ∧ C01.PayloadValid S d s ∧ gapFitsBack S d f t gf gt = true
+    | _ => True) (appended tr tr1) tr1.doc
+
+/-- **`Transform.replace(from, to, slice)` as a whole operation, partial**: `OpResidual` — the full `FamilyGuard`
+    of the recorded step — follows from `ReplaceResidual` (normal form and payload validity of the emitted slice;
+    `gapFitsBack` for a replace-around step) when the resulting document has no text outside the BMP (then the
+    inverse's cuts are pair-aligned).  Discharged here: the shape of a replace-around step the Fitter emits
+    (`sl.wf`, `insert ≤ slice.size`, ordered gap: C11 `fit_emits_wf`; its structure flag is never set:
+    `replaceStep_range`), pair-alignment; that `Step.invert` does not raise is no hypothesis of `family_step`
+    (`invert_ok_of_apply`).
+    Full statement (not proved): no `ReplaceResidual` — needs C11 `fit_emits_valid_payload` for insertions and a
+    proof that the Fitter's replace-around steps satisfy `gapFitsBack`. -/
+theorem replace_residual_partial (S : Schema) (hdet : PM.C11.detB S = true) (hfill : S.fillersOKB = true)
+    (hwrap : S.wrapOKB = true) (hlab : S.labelsOKB = true)
+    (tr tr1 : Tr) (hlen : tr.steps.length = tr.docs.length) (hv : C01.Valid S tr.doc)
+    (hattrs : S.nodeAttrsOK tr.doc = true) (f t : Nat) (sl : Slice) (hreq : sl.wf = true) (hft : f ≤ t)
+    (hrun : unplacedWfRun S tr.doc f t sl = true) (hb : bmpDoc tr1.doc = true)
+    (h : tr.runOp S (.replace f t sl) = some tr1) (hres : ReplaceResidual S tr tr1) :
+    OpResidual S (.replace f t sl) tr tr1 := by
+  have h' : tr.planned (fun st => st.replaceF S f t sl) = some tr1 := h
+  obtain ⟨st', hrun', htr⟩ := Tr.planned_some h'
+  obtain ⟨r, hr, hstep⟩ := PSt.replaceF_spec S { tr := tr } st' f t sl hrun'
+  simp only at hr hstep
+  show HistAll (FamilyGuard S) (appended tr tr1) tr1.doc
+  cases r with
+  | none =>
+    simp only at hstep
+    have e : tr1.hist = tr.hist ++ [] := by rw [← htr, hstep]; simp
+    rw [appended_eq e]
+    trivial
+  | some s =>
+    simp only at hstep
+    rw [htr] at hstep
+    obtain ⟨e, _⟩ := Tr.step_hist hlen hstep
+    unfold ReplaceResidual at hres
+    rw [appended_eq e] at hres ⊢
+    refine ⟨?_, trivial⟩
+    have hs := hres.1
+    have hal := undoAligned_of_bmp s tr1.doc hb
+    rcases replaceStep_range S tr.doc f t sl s hr with ⟨T, sl', rfl, _⟩ | ⟨T, G2, sl', ins, rfl, _⟩
+    · exact ⟨hs.1, hs.2, hal⟩
+    · obtain ⟨_, hsh⟩ := PM.C11.fit_emits_wf S hdet hfill hwrap hlab tr.doc f t sl hv hattrs hreq hft hrun _ hr
+      have hshape := hsh _ _ _ _ _ _ _ rfl
+      simp only [aroundShape, Bool.and_eq_true, decide_eq_true_eq] at hshape
+      obtain ⟨⟨⟨⟨hwf, hins⟩, g1⟩, g2⟩, g3⟩ := hshape
+      exact ⟨hs.1, hwf, hins, ⟨g1, g2, g3⟩, hs.2.1, fun hb' => by simp at hb', hs.2.2, hal⟩
+
+/-! #### histories mixing structural edits, node-level edits and mark operations -/
+
+/-- structural edits, `set_node_markup`, `set_block_type`; node-level edits; `add_mark` / `remove_mark` -/
+def mixedOp : Op → Bool
+  | .mark _ => true
+  | op => structuralOp' op || nodeLevelOp op
+
+/-- what is asked of an operation of a mixed history: operation-level facts only, except for the same-type
+    guard (finding C04-same-type-mark-order) of the `RemoveMarkStep`s recorded by `remove_mark` (and by a
+    `set_block_type` that strips marks).
+    * `add_mark` / `remove_mark`: no inline node with content (`flatInline`), same-type guard;
+    * node-level edits: `NodeOpGuard`;
+    * the others: `StructResidual'`. -/
+def MixedResidual (S : Schema) (op : Op) (tr tr1 : Tr) : Prop :=
+  match op with
+  | .mark _ => flatInline S tr.doc = true ∧
+      HistAll (fun s d _ => s.sameTypeGuard S d) (appended tr tr1) tr1.doc
+  | .addNodeMark .. => NodeOpGuard S op tr.doc
+  | .removeNodeMark .. => NodeOpGuard S op tr.doc
+  | .setNodeAttribute .. => NodeOpGuard S op tr.doc
+  | op => StructResidual' S op tr tr1
+
+/-- one operation of a mixed history on a BMP document: `OpResidual` holds and the new document is again BMP -/
+theorem mixedOp_residual (S : Schema) (htr : compatTransB S = true) (hts : TextLoop S)
+    (op : Op) (tr tr1 : Tr) (hop : mixedOp op = true)
+    (hlen : tr.steps.length = tr.docs.length) (hml : tr.maps.length = tr.steps.length)
+    (hI : FamilyInv S tr.doc) (hb : bmpDoc tr.doc = true)
+    (h : tr.runOp S op = some tr1) (hres : MixedResidual S op tr tr1) :
+    OpResidual S op tr tr1 ∧ bmpDoc tr1.doc = true := by
+  have nodeCase : nodeLevelOp op = true → NodeOpGuard S op tr.doc →
+      OpResidual S op tr tr1 ∧ bmpDoc tr1.doc = true := by
+    intro hn hg
+    refine ⟨nodeOps_residual S op tr tr1 hn hlen h hg, ?_⟩
+    rcases nodeOp_hist S op tr tr1 hn hlen h with ⟨_, e⟩ | ⟨pos, s, hk, _, ha, _⟩
+    · rw [e]; exact hb
+    · exact nodeStep_bmp S tr.doc tr1.doc pos s hk ha hb
+  cases op with
+  | mark o =>
+    obtain ⟨hflat, hty⟩ := hres
+    obtain ⟨h2, e, _, n, r, g⟩ := Tr.markOp_hist S tr tr1 o hlen hI.1 hflat (toOption_some h)
+    rw [appended_eq e] at hty
+    have hal : HistAll (fun s _ d' => s.undoAligned d') h2 tr1.doc :=
+      histAll_of_inv S (fun d => bmpDoc d = true) (PlanGuard S) (fun s _ d' => s.undoAligned d')
+        (fun s d d' hbd ha hg => (bmp_step S s d d' (planGuard_isMark S s d d' hg) hbd ha).symm)
+        h2 tr1.doc (by rw [n]; exact hb) r g
+    have hb1 : bmpDoc tr1.doc = true :=
+      inv_fin_of_hist S (fun d => bmpDoc d = true) (PlanGuard S)
+        (fun s d d' hbd ha hg => (bmp_step S s d d' (planGuard_isMark S s d d' hg) hbd ha).1)
+        h2 tr1.doc (by rw [n]; exact hb) r g
+    refine ⟨⟨hflat, ?_⟩, hb1⟩
+    rw [appended_eq e]
+    exact histAll_and _ _ hty hal
+  | addNodeMark pos m => exact nodeCase rfl hres
+  | removeNodeMark pos sel => exact nodeCase rfl hres
+  | setNodeAttribute pos name value => exact nodeCase rfl hres
+  | split pos depth => exact structOp_residual' S htr hts _ tr tr1 rfl hlen hml hI hb h hres
+  | join pos depth => exact structOp_residual' S htr hts _ tr tr1 rfl hlen hml hI hb h hres
+  | lift a b depth target => exact structOp_residual' S htr hts _ tr tr1 rfl hlen hml hI hb h hres
+  | wrap a b depth ws => exact structOp_residual' S htr hts _ tr tr1 rfl hlen hml hI hb h hres
+  | setNodeMarkup pos ty attrs marks => exact structOp_residual' S htr hts _ tr tr1 rfl hlen hml hI hb h hres
+  | setBlockType f t ty attrs => exact structOp_residual' S htr hts _ tr tr1 rfl hlen hml hI hb h hres
+  | step => simp [mixedOp, structuralOp', structuralOp, nodeLevelOp] at hop
+  | replace => simp [mixedOp, structuralOp', structuralOp, nodeLevelOp] at hop
+
+/-- on a BMP document, a mixed run meets `OpResidual` -/
+theorem mixedOps_residual (S : Schema) (htr : compatTransB S = true) (hts : TextLoop S) :
+    ∀ (ops : List Op) (tr : Tr), tr.steps.length = tr.docs.length → tr.maps.length = tr.steps.length →
+    FamilyInv S tr.doc → bmpDoc tr.doc = true →
+    (∀ op ∈ ops, mixedOp op = true) → OpsAll S (MixedResidual S) tr ops → OpsAll S (OpResidual S) tr ops
+  | [], _, _, _, _, _, _, _ => trivial
+  | op :: ops, tr, hlen, hml, hI, hb, hall, hres => by
+    simp only [OpsAll] at hres ⊢
+    cases h1 : tr.runOp S op with
+    | none => trivial
+    | some tr1 =>
+      simp only [h1] at hres ⊢
+      have hop := hall op (List.mem_cons_self ..)
+      obtain ⟨hr1, hb1⟩ := mixedOp_residual S htr hts op tr tr1 hop hlen hml hI hb h1 hres.1
+      refine ⟨hr1, ?_⟩
+      obtain ⟨h2, e1, l1, n1, r1⟩ := (Tr.runOp_grows op h1).hist hlen
+      have g1 := op_family S op tr tr1 hlen hI h1 hr1
+      rw [appended_eq e1] at g1
+      have hI1 : FamilyInv S tr1.doc :=
+        (chain_of_invariant S (FamilyInv S) (FamilyGuard S) (family_step S htr hts) h2 tr1.doc
+          (by rw [n1]; exact hI) r1 g1).2
+      exact mixedOps_residual S htr hts ops tr1 l1 ((Tr.runOp_grows op h1).maps_len hml) hI1 hb1
+        (fun o ho => hall o (List.mem_cons_of_mem _ ho)) hres.2
+
+/-- **a history mixing structural edits (`split`, `join`, `lift`, `wrap`, `set_node_markup`, `set_block_type` to
+    plain types), node-level edits (`add_node_mark`, `remove_node_mark`, `set_node_attribute`) and mark
+    operations is undone exactly**: schema with transitive `compatible_content` and `TextLoop`; `doc` valid,
+    in normal form, no text outside the BMP; per operation `MixedResidual` — facts about the current document
+    and the operation's arguments, plus the same-type guard where `RemoveMarkStep`s are recorded. -/
+theorem mixedHistory_undo_bmp (S : Schema) (htr : compatTransB S = true) (hts : TextLoop S)
+    (doc : Node) (ops : List Op) (tr' : Tr) (hd : S.checkNode doc = true) (hn : fnorm doc.kids = true)
+    (hb : bmpDoc doc = true) (hall : ∀ op ∈ ops, mixedOp op = true)
+    (h : (Tr.init doc).runOps S ops = some tr')
+    (hres : OpsAll S (MixedResidual S) (Tr.init doc) ops) :
+    tr'.undo S = .ok doc ∧ FamilyInv S tr'.doc :=
+  opHistory_undo S htr hts doc ops tr' hd hn h
+    (mixedOps_residual S htr hts ops (Tr.init doc) rfl rfl ⟨hd, hn⟩ hb hall hres)
 
 end PM.C04
